@@ -338,7 +338,7 @@ impl Engine for Decode {
                 }
                 check_input(&mut ctx, &mut a01, &mut a02, &z, 0, "root_zero_spare");
                 // header mutations on the roomy image and on the exact-fit image
-                for base in [&img[..], &img[..*ext]] {
+                for base in [&img[..], &img[..*ext], &z[..]] {
                     let fields = match decode_tree(&d, base) {
                         Ok((_, h)) => h,
                         Err(_) => continue,
